@@ -261,6 +261,18 @@ func main() {
 	thorough := r.Thorough()
 	headers := append(validHeaders(thorough), specialHeaders()...)
 	headers = append(headers, neighbourHeaders()...)
+	headers = append(headers, wildcardHeaders()...)
+	var wh []string
+	for _, h := range wildcardHeaders() {
+		wh = append(wh, h.Lines[0])
+	}
+	r.Set("header_wildcard_spelled", wh)
+	// body-content sweep (framings without declared length): a reduced header set, every method, ascending order
+	contentHeaders := []Header{{Lines: nil, Kind: "absent"}, {Lines: []string{"a/b/c"}, Kind: "malformed"}, valid("textx/plain", "textx/plain")}
+	for _, b := range baseTypes {
+		contentHeaders = append(contentHeaders, valid(b, b))
+	}
+	r.Set("body_content_sweep", fmt.Sprintf("%d content modes (first byte %q x length 1,2 x chunked / in-process unknown length) x %d headers x %d methods per configuration", len(contentModes), contentFirstBytes, len(contentHeaders), len(methods)))
 	var nb []string
 	for _, n := range neighbours() {
 		nb = append(nb, fmt.Sprintf("%s (%s of %s; consumer under registration all: %v)", n.mt, n.how, n.of, n.registered))
@@ -359,6 +371,21 @@ func main() {
 				}
 			}
 		}
+		for _, h := range contentHeaders {
+			for _, m := range contentModes {
+				for _, me := range methods {
+					c := Case{Config: cfg, Order: "asc", Method: me, Header: h, Body: m}
+					u, t := e.execute(c, "")
+					evals += 2
+					nontrivial++
+					outcomes["content/"+outcomeLabel(u, "yes")]++
+					outcomes["content/"+outcomeLabel(t, "yes")]++
+					for _, f := range judge(c, u, t) {
+						r.Fail(f.class, f.what, c)
+					}
+				}
+			}
+		}
 		done.Add(1)
 		r.Eval(evals)
 		r.Nontrivial(nontrivial)
@@ -376,5 +403,5 @@ func main() {
 		"the order of route.Consumes (random in the pinned tree: the analyzer ranges over a map) is set by the harness to ascending and descending (sequence phase: ascending)",
 		"sequence phase: a fresh instance = new untyped API value, Context, router, handler chain and consumers over the same analysed description; state kept outside these objects (package level) is not reset between sequences",
 	)
-	r.Finish("every configuration (subset of the consumes universe up to the size bound x API default x registered consumers x description shape) x list order x every Content-Type header of the alphabet x every body mode x every method, each executed on both entry points of the real middleware (2 evaluations per case) and compared with the reference model; non-trivial = the request carries a body under at least one reading, i.e. the HasBody branch of the gate is entered (distinct by construction: the enumerator never repeats a (configuration, order, header, body mode, method) tuple). Sequence phase: every description with two operations (unordered pair of consumes lists x operationId mode none/same/unique x layout x API default) x (a) every ordered pair (thorough: also every ordered triple over the smaller alphabet) of steps (operation x entry point x header x body mode), each sequence served by ONE fresh instance, and (b) for every first step of the wide alphabet one instance that serves it followed by every step of the wide alphabet; every step is one evaluation, judged by the reference model with the configuration of the operation it addresses and required to equal the result of the same step alone on a fresh instance; non-trivial sequence = at least two of its steps carry a body", !cut.Load())
+	r.Finish("every configuration (subset of the consumes universe up to the size bound x API default x registered consumers x description shape) x list order x every Content-Type header of the alphabet x every body mode x every method, plus per configuration the body-content sweep (first byte x length x chunked/unknown-length framing x reduced header set x every method), each executed on both entry points of the real middleware (2 evaluations per case) and compared with the reference model; non-trivial = the request carries a body under at least one reading, i.e. the HasBody branch of the gate is entered (distinct by construction: the enumerator never repeats a (configuration, order, header, body mode, method) tuple). Sequence phase: every description with two operations (unordered pair of consumes lists x operationId mode none/same/unique x layout x API default) x (a) every ordered pair (thorough: also every ordered triple over the smaller alphabet) of steps (operation x entry point x header x body mode), each sequence served by ONE fresh instance, and (b) for every first step of the wide alphabet one instance that serves it followed by every step of the wide alphabet; every step is one evaluation, judged by the reference model with the configuration of the operation it addresses and required to equal the result of the same step alone on a fresh instance; non-trivial sequence = at least two of its steps carry a body", !cut.Load())
 }
